@@ -596,6 +596,9 @@ func (c *EvalCtx) call(n *Node) Val {
 			if v.Cell == 0 {
 				return mkInt(0)
 			}
+			if ma, ok := c.st.Heap[v.Cell].(*MapAgg); ok && !ma.Unknown {
+				return mkInt(int64(len(ma.Keys)))
+			}
 		}
 		specErr(n, "len of %T", arg(0))
 	case "identifierize_of":
@@ -696,6 +699,17 @@ func (c *EvalCtx) call(n *Node) Val {
 	case "abs_has_error":
 		k, _ := c.evalTerm(n.Kids[0]).intVal()
 		return mkVar(fmt.Sprintf("hasError!v%d", k), SBool)
+	case "fresh_map":
+		m, ok := arg(0).(MapV)
+		if !ok || m.Cell == 0 {
+			return tFalse
+		}
+		if c.old != nil {
+			if _, existed := c.old.Heap[m.Cell]; existed {
+				return tFalse
+			}
+		}
+		return tTrue
 	case "cmp_equal":
 		return mkVar("cmpeq!"+refTag(arg(0))+"!"+refTag(arg(1)), SBool)
 	case "cmp_options_only":
